@@ -51,7 +51,7 @@ func takeBankSnap(c *chain.Chain) func(ctx sdk.Context) interface{} {
 }
 
 func genC04(t *rapid.T) c04Case {
-	cfg := worldCfg{MaxGasSmall: true}
+	cfg := worldCfg{MaxGasSmall: true, ModAddrs: true}
 	w := genEvmWorld(t, cfg)
 	if rapid.IntRange(0, 5).Draw(t, "smallblock") == 0 {
 		w.MaxGas = rapid.Int64Range(100000, 2000000).Draw(t, "maxgas")
